@@ -1,0 +1,162 @@
+// SPDX-License-Identifier: MIT
+
+//go:build verif
+
+package mqtt
+
+import (
+	"sync/atomic"
+
+	"github.com/mochi-mqtt/server/v2/packets"
+)
+
+// This file is only compiled with the "verif" build tag. It gives the runtime-verification
+// harness (a) named schedule points inside connection handling, (b) read-only probes of
+// internal state at quiescent points, and (c) entry points to the housekeeping functions
+// with an explicit clock. Nothing here changes the behaviour of the broker.
+
+// VerifController receives every schedule point. It may block (park) the calling goroutine.
+type VerifController func(point string, clientID string)
+
+var verifController atomic.Value // VerifController
+
+// SetVerifController installs (or, with nil, removes) the schedule-point controller.
+func SetVerifController(c VerifController) {
+	if c == nil {
+		verifController.Store(VerifController(func(string, string) {}))
+		return
+	}
+	verifController.Store(c)
+}
+
+func verifPoint(point, id string) {
+	if c, ok := verifController.Load().(VerifController); ok && c != nil {
+		c(point, id)
+	}
+}
+
+// VerifOutboundIdle reports whether no client has a queued or in-progress outbound publish.
+func (s *Server) VerifOutboundIdle() bool {
+	for _, cl := range s.Clients.GetAll() {
+		if len(cl.State.outbound) != 0 || atomic.LoadInt32(&cl.State.outboundQty) != 0 {
+			return false
+		}
+	}
+	return true
+}
+
+// Housekeeping with an explicit clock (the event loop calls these with time.Now().Unix()).
+func (s *Server) VerifClearExpiredClients(now int64)          { s.clearExpiredClients(now) }
+func (s *Server) VerifClearExpiredRetainedMessages(now int64) { s.clearExpiredRetainedMessages(now) }
+func (s *Server) VerifClearExpiredInflights(now int64)        { s.clearExpiredInflights(now) }
+func (s *Server) VerifSendDelayedLWT(now int64)               { s.sendDelayedLWT(now) }
+func (s *Server) VerifPublishSysTopics()                      { s.publishSysTopics() }
+
+// VerifReadStore loads persisted state exactly as Serve does, without listeners or event loop.
+func (s *Server) VerifReadStore() error {
+	if s.hooks.Provides(StoredClients, StoredInflightMessages, StoredRetainedMessages, StoredSubscriptions, StoredSysInfo) {
+		return s.readStore()
+	}
+	return nil
+}
+
+// VerifWillDelayed returns the client ids that have a delayed will pending.
+func (s *Server) VerifWillDelayed() []string {
+	ids := []string{}
+	for id := range s.loop.willDelayed.GetAll() {
+		ids = append(ids, id)
+	}
+	return ids
+}
+
+// VerifQuotas is a snapshot of a client's flow-control counters.
+type VerifQuotas struct {
+	Send, Receive, MaxSend, MaxReceive int32
+}
+
+func (cl *Client) VerifQuotas() VerifQuotas {
+	i := cl.State.Inflight
+	return VerifQuotas{
+		Send: atomic.LoadInt32(&i.sendQuota), Receive: atomic.LoadInt32(&i.receiveQuota),
+		MaxSend: atomic.LoadInt32(&i.maximumSendQuota), MaxReceive: atomic.LoadInt32(&i.maximumReceiveQuota),
+	}
+}
+
+// VerifInflight returns a copy of the client's in-flight records.
+func (cl *Client) VerifInflight() []packets.Packet { return cl.State.Inflight.GetAll(false) }
+
+// VerifSetPacketID sets the last assigned outbound packet id (to reach wrap-around quickly).
+func (cl *Client) VerifSetPacketID(n uint32) { atomic.StoreUint32(&cl.State.packetID, n) }
+
+// VerifOutbuf returns the number of bytes accepted for writing that are still buffered.
+func (cl *Client) VerifOutbuf() int {
+	cl.Lock()
+	defer cl.Unlock()
+	if cl.Net.outbuf == nil {
+		return 0
+	}
+	return cl.Net.outbuf.Len()
+}
+
+// VerifCounts are numbers obtained by walking the real data structures.
+type VerifCounts struct {
+	Connected     int // clients in the map with an open connection
+	Clients       int // clients in the map (inline client excluded)
+	Subscriptions int // (client, filter) entries in the topic index, shared ones included
+	Retained      int // retained messages
+	Inflight      int // in-flight records over all clients in the map
+}
+
+func (s *Server) VerifActualCounts() VerifCounts {
+	var c VerifCounts
+	for _, cl := range s.Clients.GetAll() {
+		if cl.Net.Inline {
+			continue
+		}
+		c.Clients++
+		if !cl.Closed() && cl.Net.Conn != nil {
+			c.Connected++
+		}
+		c.Inflight += cl.State.Inflight.Len()
+	}
+	c.Retained = s.Topics.Retained.Len()
+	var walk func(p *particle)
+	walk = func(p *particle) {
+		if p.subscriptions != nil {
+			c.Subscriptions += p.subscriptions.Len()
+		}
+		if p.shared != nil {
+			c.Subscriptions += p.shared.Len()
+		}
+		for _, ch := range p.particles.getAll() {
+			walk(ch)
+		}
+	}
+	walk(s.Topics.root)
+	return c
+}
+
+// VerifIndexSubscriptions lists every (client, filter) entry of the topic index.
+func (s *Server) VerifIndexSubscriptions() map[string][]string {
+	out := map[string][]string{}
+	var walk func(p *particle)
+	walk = func(p *particle) {
+		if p.subscriptions != nil {
+			for id, sub := range p.subscriptions.GetAll() {
+				out[id] = append(out[id], sub.Filter)
+			}
+		}
+		if p.shared != nil {
+			for _, m := range p.shared.GetAll() {
+				for id, sub := range m {
+					out[id] = append(out[id], sub.Filter)
+				}
+			}
+		}
+		for _, ch := range p.particles.getAll() {
+			walk(ch)
+		}
+	}
+	walk(s.Topics.root)
+	return out
+}
